@@ -107,8 +107,13 @@ def spec_from_seed(run_seed, tier):
         return (" " + s_ + " ") if rnd.random() < 0.15 else s_
 
     text = f"{fam}({','.join(fmt(p) for p in params)})"
+    neighbour = None
+    if rnd.random() < 0.4:
+        p2, f2 = _params(rnd, fam)
+        if not f2 and list(p2) != list(params):
+            neighbour = f"{fam}({','.join(repr(float(p)) for p in p2)})"
     return {"kind": "dist", "prop": "C11", "family": fam, "params": list(params), "text": text, "quantiles": qs, "features": feats,
-            "n_grid": n}
+            "n_grid": n, "neighbour": neighbour}
 
 
 def _interval(g, lo, hi):
@@ -154,6 +159,15 @@ def execute(spec):
             viol("valid_parameters_rejected", f"constructor raised {exc!r}")
             return _result(spec, viols, stats, world, 0)
         rng = SimRng(sched)
+        # a second law of the same family with other parameters lives next to the one under test (several blocks of one
+        # molecule do): created after it, asked for its density now and then; it must not influence the first one
+        other = None
+        if spec.get("neighbour"):
+            try:
+                other = g.distribution.get_distribution("|" + spec["neighbour"] + "|")
+                stats["neighbour_objects"] = 1
+            except Exception:
+                other = None
         # L: a point below the support from which interval probabilities give the reported CDF
         if fam == "gauss":
             L = params[0] - 50 * max(params[1], 1.0) - 50
@@ -165,7 +179,14 @@ def execute(spec):
             return float(dist.prob_mw(_interval(g, L, x)))
 
         n_fail = {}
-        for u in qs:
+        for qi, u in enumerate(qs):
+            if other is not None and qi % 16 == 5:
+                try:
+                    other.prob_mw(float(rd.q(0.5)))
+                except SimAbort:
+                    raise
+                except Exception:
+                    pass
             before = sched.calls
             try:
                 v = dist.draw_mw(rng)
